@@ -23,7 +23,7 @@ ASSUMPTIONS = [
 ]
 SHARD_TIMEOUT = {"quick": 600, "thorough": 3000}
 
-KINDS = ["conn-close", "http10", "refused-400", "refused-431", "short", "nocl", "raise0", "raise1", "send-fault"]
+KINDS = ["conn-close", "http10", "http10-te", "refused-400", "refused-431", "short", "short0", "nocl", "raise0", "raise1", "send-fault"]
 FOLLOW = ["one", "two", "partial", "garbage"]
 ARRIVAL = ["same", "next", "after-response", "delay", "during-execution"]
 
@@ -54,7 +54,12 @@ def build(kind, follow, arrival, lookahead, threads, poll, pre, sndbuf=4096):
     elif kind == "refused-431":
         adj["max_request_header_size"] = 200
         M = {"raw": "GET /big HTTP/1.1\r\nHost: h\r\nX-Pad: " + "p" * 220 + "\r\n\r\n"}
-    elif kind in ("short", "nocl", "raise0", "raise1"):
+    elif kind == "http10-te":
+        # Transfer-Encoding on a non-1.1 request: whatever is done with the message itself, the
+        # connection must be closed after it (RFC 9112 6.1), keep-alive or not
+        M = {"raw": "POST /r?c=0&i=%d&n=600&k=cl&w=0 HTTP/1.0\r\nHost: h\r\nConnection: keep-alive\r\n"
+                    "Transfer-Encoding: chunked\r\n\r\n" % m_index, "refused": True}
+    elif kind in ("short", "short0", "nocl", "raise0", "raise1"):
         M = {"n": 600, "k": kind, "w": 100}
     elif kind == "send-fault":
         # a non-disconnect errno in the worker's flush: the channel decides to
@@ -118,7 +123,7 @@ def gen_scenario(rng):
 
 def directed():
     out = []
-    for kind in ("conn-close", "refused-400", "raise0", "short", "send-fault"):
+    for kind in ("conn-close", "refused-400", "raise0", "short", "send-fault", "short0", "http10-te"):
         for la in (0, 2):
             s = build(kind, "two", "next", la, 1, False, [{"n": 50, "k": "cl"}], sndbuf=512)
             s["follow"], s["arrival"] = "two", "next"
@@ -148,7 +153,7 @@ def plan(tier, seed):
         specs.append({"mode": "random", "seed": seed * 1021 + i, "n": per})
     ds = directed()
     if tier == "quick":
-        ds = [ds[0], ds[1], ds[3], ds[5], ds[9], ds[10], ds[11], ds[12], ds[15]]
+        ds = [ds[0], ds[1], ds[3], ds[5], ds[9], ds[11], ds[13], ds[14], ds[15], ds[16], ds[19]]
     parts = 4
     for scn in ds:
         for p in range(parts):
